@@ -4,8 +4,9 @@ Nothing of lena's control flow is copied here. The file holds
   * a canonical, address-free, hashable form of values and of element states (`canon`),
   * the id-graph of mutable containers reachable from a value (`container_ids`),
   * the *poison* used by the hostile consumer (mutates every mutable container it can reach),
-  * Part A: factories for branches (always fresh objects), the observing `Tap`, the drivers that run a
-    Split / Zip by run, fill+compute or fill+request,
+  * Part A: factories for branches (always fresh objects) of every sequence type Split documents
+    (Sequence, FillComputeSeq, FillRequestSeq and Source - a branch that does not read the flow), the
+    observing `Tap`, the drivers that run a Split / Zip by run, fill+compute or fill+request,
   * Part B: factories for the framework accumulators and their wrappers and the event interpreter.
 """
 import copy
@@ -168,6 +169,19 @@ class Usr(object):
         return value
 
 
+class Gen(object):
+    """First element of a Source branch: generates its own flow, SRC_N values of the shape make_flow
+    gives (list data, private nested context), made anew at every call; it never sees the Split's flow."""
+
+    def __call__(self):
+        for j in range(SRC_N):
+            m = 100 + j
+            yield ([m], {"id": m, "tag": "s", "nest": {"k": [m]}, "output": {"prefix": "p"}})
+
+
+SRC_N = 2
+
+
 class Tap(object):
     """Observer at the end of a branch: records a canonical snapshot of every value that leaves the
     branch (at that moment) and the object itself; passes the object on unchanged."""
@@ -189,8 +203,13 @@ def _getter_v(data):
 
 PRE_TOKENS = ("none", "usr", "var", "upd", "mkp", "mkf", "cnt", "updv", "usrsl", "varsl")
 TERM_TOKENS = ("seq", "store", "last", "fr", "storei")
+# "src": the branch is a Source (generator Gen, then the mutators as run elements): the fourth sequence
+# type a Split accepts. It does not read the flow; Split.run calls it once and drops it from its list of
+# active branches. Kept out of TERM_TOKENS (the product mutators x terminals): SRC_PRE lists its mutators.
+SRC_TOKEN = "src"
+SRC_PRE = ("none", "usr", "cnt")
 TERM_TYPE = {"seq": "sequence", "store": "fill_compute", "storei": "fill_compute",
-             "last": "fill_compute", "fr": "fill_request"}
+             "last": "fill_compute", "fr": "fill_request", "src": "source"}
 
 
 def _pre(token, term):
@@ -219,7 +238,7 @@ def _pre(token, term):
         return _pre(token[:3], term) + [lena.flow.Slice(1)]
     if token == "cnt":
         # Count as an in-place mutator of passing values (not as the accumulator of the branch)
-        if term == "seq":
+        if term in ("seq", "src"):
             return [lena.core.Run(lena.flow.Count("c"))]
         return [lena.core.FillInto(lena.flow.Count("c"))]
     raise ValueError(token)
@@ -232,6 +251,9 @@ def make_branch(kind, explicit_frs):
     for tok in kind[:-1]:
         els.extend(_pre(tok, term))
     tap = Tap()
+    if term == "src":
+        # a Source must be given explicitly (a tuple is never taken for one)
+        return lena.core.Source(Gen(), *(els + [tap])), tap
     if term == "seq":
         pass
     elif term == "store":
@@ -412,10 +434,15 @@ def _ctx(j):
 
 
 ACCS = ("Sum", "DSum", "Mean", "MeanSumSeq", "VarianceMeanCount", "VarianceMeanCountCorr",
-        "Vectorize", "Count", "Histogram", "SplitIntoBins", "Graph", "SplitIntoBins2")
+        "Vectorize", "Count", "Histogram", "SplitIntoBins", "Graph", "SplitIntoBins2",
+        "MeanSumSeq2", "Vectorize2")
+# The configurations whose name ends in 2 yield SEVERAL values at one compute(): every accumulator whose
+# docstring allows it (Mean: "if the sum_seq yields several values, they are all yielded"; Vectorize:
+# the results of the components "grouped together", as many as the longest component yields;
+# SplitIntoBins: one histogram per result of the per-cell analysis).
 
 ACC_CLASS = {"MeanSumSeq": "Mean", "VarianceMeanCountCorr": "VarianceMeanCount",
-             "SplitIntoBins2": "SplitIntoBins"}
+             "SplitIntoBins2": "SplitIntoBins", "MeanSumSeq2": "Mean", "Vectorize2": "Vectorize"}
 
 
 def make_acc(tok):
@@ -446,12 +473,18 @@ def make_acc(tok):
                                              lena.variables.Variable("x", _ident), [0, 2, 100])
     if tok == "Graph":
         return lena.structures.Graph()
+    if tok == "MeanSumSeq2":
+        # a sum sequence with two results (the sum and the count): one compute() yields two values
+        return lena.math.Mean(sum_seq=lena.core.Split([lena.math.Sum(), lena.flow.Count()]))
+    if tok == "Vectorize2":
+        # every component yields one result per filled value: one compute() yields as many values
+        return lena.math.Vectorize(lena.flow.StoreFilled(yield_as_a_group=False), dim=2)
     raise ValueError(tok)
 
 
 def make_value(tok, j):
     """The j-th filled value for accumulator *tok*: fresh data, fresh private nested context."""
-    if tok == "Vectorize":
+    if tok in ("Vectorize", "Vectorize2"):
         data = (j + 1, j + 2)
     elif tok == "Graph":
         data = (j + 1, (j + 1) * 2)
